@@ -54,6 +54,7 @@ def impl_modes(c):
     o["reset_same"] = None
     if stateless(c) and o["status"] == 0 and c["end"] is not None:
         o["reset_same"] = reset_replay(c)
+    o["reset_source_same"] = reset_with_source(c) if len(json.dumps(c["pre"])) % 3 == 0 else None
     return o
 
 
@@ -82,6 +83,55 @@ def reset_replay(c):
     return [first == second and w.ulog[:n1] == w.ulog[n1:], first[:6], second[:6]]
 
 
+def reset_with_source(c):
+    """reset()+run() with real Sources (and a probe-like daemon source) whose first ticks tie
+    with pre-run scheduled events: the second run must repeat the first delivery sequence."""
+    import random as _r
+    from happysimulator.core.entity import Entity
+    from happysimulator.core.event import Event
+    from happysimulator.core.simulation import Simulation
+    from happysimulator.core.temporal import Instant
+    from happysimulator.load.source import Source
+    rng = _r.Random(len(json.dumps(c["pre"])) * 7919 + len(c["prog"]))
+    log = []
+
+    class Sink(Entity):
+        def handle_event(self, event):
+            return None
+
+    sinks = [Sink(f"k{i}") for i in range(2)]
+    rate = rng.choice([1, 2, 4])
+    srcs = [Source.constant(rate=rate, target=sinks[0], event_type="tick", name="src0", stop_after=3.0)]
+    if rng.random() < 0.5:
+        srcs.append(Source.constant(rate=rng.choice([1, 2]), target=sinks[1], event_type="tock", name="src1", stop_after=3.0))
+    sim = Simulation(sources=srcs, entities=sinks, end_time=Instant.from_seconds(4.0))
+    period = 1_000_000_000 // rate
+    for i in range(rng.randint(1, 5)):
+        t = rng.choice([period, 2 * period, period, 1_000_000_000, 500_000_000, 0])      # ties with source ticks
+        sim.schedule(Event(time=Instant(t), event_type=f"pre{i}", target=sinks[rng.randrange(2)]))
+    _ = sim.control
+
+    def watch():
+        heap = sim._event_heap
+        orig = heap.pop
+
+        def pop():
+            ev = orig()
+            if not ev._cancelled:
+                log.append([ev.time.nanoseconds, ev.event_type, getattr(ev.target, "name", type(ev.target).__name__)])
+            return ev
+        heap.pop = pop
+    del log[:]
+    watch()                       # every delivery, including the sources' own tick events
+    sim.run()
+    first = list(log)
+    del log[:]
+    sim.control.reset()
+    watch()                       # reset() installs a new heap
+    sim.run()
+    return [first == log, first[:10], log[:10]]
+
+
 def oracle_modes(c, o):
     if o["status"] == 3:
         return [dict(clause="run exceeded the wall-clock limit")]
@@ -91,6 +141,9 @@ def oracle_modes(c, o):
     if o["reset_same"] is not None and not o["reset_same"][0]:
         out.append(dict(clause="reset() followed by run() repeats the original delivery sequence (stateless entities)",
                         first=o["reset_same"][1], second=o["reset_same"][2]))
+    if o.get("reset_source_same") is not None and not o["reset_source_same"][0]:
+        out.append(dict(clause="reset() followed by run() repeats the original delivery sequence (sources re-primed, pre-run events replayed)",
+                        first=o["reset_source_same"][1], second=o["reset_source_same"][2]))
     return out
 
 
@@ -150,7 +203,7 @@ FAM_SESSION = Family("session", es.SESSION_IMPORTS, "ok_session", es.SESSION_CAS
 TRUSTED = [
     "Coq 8.16.1 kernel, vm_compute for case evaluation; no native_compute; no axioms",
     "trace recorder, event tracing and the visual/code debuggers are not modelled: the correspondence shows they leave the run equal to the same model run",
-    "Metric/Condition breakpoints (arbitrary Python predicates) are not modelled; Time/EventCount/EventType are",
+    "Condition breakpoints (arbitrary Python predicates) are not modelled; Time/EventCount/EventType/Metric (on the scripted entities' handled-events counter) are",
     "harness/props/engine_script.py (script generator, control-session driver, observers, encoder)",
 ]
 
